@@ -36,6 +36,7 @@ def run_layers(ctx, files1, files2, p1pattern):
     d1_present = bool(ctx.bool('d1_present'))
     fmt = ctx.choice('fmt', ['yaml', 'json', 'mixed'])
     env = common.PolicyEnv()
+    env.linked = bool(ctx.bool('dir_entries_are_symlinks'))
     try:
         # layers in documented order: (id, kind, path)
         layers = [('L0', 'default', None), ('L1', 'main', 'policy.yaml')]
